@@ -212,4 +212,14 @@ def scaled(tier):
         out.append(("same_key_%d" % n, "@a{k, t={x}}\n" * (n // 4)))
         out.append(("quotes_%d" % n, "@a{k, t=\"" + "x\n" * n))
         out.append(("stray_close_%d" % n, "}\n" * n + "@a{k}"))
+    # every scanner x long runs of every mark kind (balanced and unterminated): depth / length above the
+    # interpreter's recursion limit in each of the splitter's loops
+    n = 2500 if tier == "quick" else 30000
+    prefixes = ["", "@comment{", "@preamble{", "@string{k = ", "@string{", "@a{", "@a{k, ", "@a{k, x = ", "@a{k, x = {", '@a{k, x = "']
+    runs = ["{", "}", '"', ",", "=", "\n", "x", "{}", "@a{", "\\", "{\n", '""', "x = {y},\n"]
+    for pi, pre in enumerate(prefixes):
+        for ri, run in enumerate(runs):
+            out.append(("run_%d_%d_open" % (pi, ri), pre + run * n))
+            if run == "{":
+                out.append(("run_%d_%d_balanced" % (pi, ri), pre + "{" * n + "x" + "}" * n + "}\n@comment{tail}"))
     return out
